@@ -227,6 +227,26 @@ class CollInterp:
         if k == "add":
             s = self.mk(op["stream"])
             before = [(id(x)) for x in self.c._streams.values()]
+            if op.get("overwrite"):
+                # an explicit overwrite (prevent_overwrite=False): under an existing key the new stream takes the old one's
+                # place - requested, not silent - and the collection then holds the new stream only
+                keys = self.keys_now()
+                key = keys[op["idx"] % len(keys)] if keys and op.get("existing") else (op.get("key") or s.name)
+                old = self.c._streams.get(key)
+                ok, r = call_sut(self.c.add, s, key, False)
+                if not ok:
+                    return [Fail("C19.sut_exception:" + r, f"add(prevent_overwrite=False) raised {r}: {call_sut.last_message}")]
+                if old is not None:
+                    gone = False
+                    kept = []
+                    for m in self.members:  # the same object may sit under another key as well: one occurrence goes
+                        if m is old and not gone:
+                            gone = True
+                        else:
+                            kept.append(m)
+                    self.members = kept
+                self.members.append(s)
+                return f + self.invariants("after add(prevent_overwrite=False)")
             ok, r = call_sut(self.c.add, s, op.get("key"))
             if not ok:
                 return [Fail("C19.sut_exception:" + r, f"add raised {r}: {call_sut.last_message}")]
@@ -388,6 +408,10 @@ def coll_machine(col, tier):
         @rule(s=spec, key=st.sampled_from([None, None, "A", "k", "A_1"]))
         def add(self, s, key):
             self._do({"op": "add", "stream": s, "key": key})
+
+        @rule(s=spec, idx=st.integers(0, 50), existing=st.sampled_from([True, True, False]), key=st.sampled_from([None, "A", "k"]))
+        def add_overwriting(self, s, idx, existing, key):
+            self._do({"op": "add", "stream": s, "overwrite": True, "idx": idx, "existing": existing, "key": key})
 
         @rule(ss=st.lists(spec, min_size=0, max_size=4), with_keys=st.booleans())
         def add_many(self, ss, with_keys):
